@@ -7,6 +7,7 @@ import Rustemo.Driver.Resolve
 import Rustemo.Model.Canon
 import Rustemo.Model.CertComplete
 import Rustemo.Model.Core
+import Rustemo.Model.Lex
 import Rustemo.Model.Forest
 /-!
 Line-protocol driver: one request per line on stdin, one answer per line on stdout.
@@ -37,6 +38,22 @@ def handle (st : DState) (line : String) : DState × String :=
     | ["structural", _, _] =>
       (st, if Cert.structural st.dump.grammar st.dump.table (autosOf st.dump.grammar st.dump.table) then "1" else "0")
     | ["lr-total"] => (st, if Cert.lr st.dump.grammar st.dump.table then "1" else "0")
+    | ["lexsorted"] =>
+      -- every state's sorted_terminals list is `withFlags` of a key-sorted list (C06 hypotheses)
+      let g := st.dump.grammar
+      let ms := st.dump.settings.mostSpecific
+      let ok := st.dump.table.states.all fun state =>
+        let descs : List Lex.TermDesc := state.sorted.map fun (k, _) =>
+          match g.terms[k]? with
+          | some tm =>
+            ⟨k, tm.prio, match tm.recog with
+              | some (.str s) => some s.utf8ByteSize
+              | _ => none⟩
+          | none => ⟨k, 0, none⟩
+        let cells := (List.range g.nterms).filter fun a => !(state.actions.getD a []).isEmpty
+        Lex.sortedOk ms descs state.sorted &&
+          (state.sorted.map (·.1)).all (cells.contains ·) && cells.all ((state.sorted.map (·.1)).contains ·)
+      (st, if ok then "1" else "0")
     | ["c01"] =>
       let g := st.dump.grammar
       let t := st.dump.table
